@@ -320,6 +320,16 @@ func (c *ctx) refToLib(what string, in, stream []byte, crc bool, src lzwork.Sour
 	c.o.Count("read_calls", res.Reads)
 	c.o.Count("readplan_"+rp.String(), 1)
 	c.o.Count("source_"+src.String(), 1)
+	if res.BeyondEndAt >= 0 {
+		// a complete, valid stream: everything the Reader needs has been delivered. A source that stays open after the
+		// message (TNC link, TCP session) would block in that call and the message would never come out.
+		c.violate("reads-beyond-end-of-stream", map[string]any{"input": what, "stream_hex": lzwork.Hex(stream, 200), "mode": m, "source": src, "read_plan": rp},
+			"%s: the Reader called its source again after the last byte of a complete stream had been delivered (%d of %d output bytes handed out by then): on a connection that stays open this call blocks", what, res.BeyondEndAt, len(in))
+	}
+	if res.SourceDamage != "" {
+		c.violate("source-memory-modified", map[string]any{"direction": "reference->library", "input": what, "stream_hex": lzwork.Hex(stream, 200), "mode": m, "source": src},
+			"%s: decompressing changed the memory the stream was served from (%s source): %s", what, src.String(), res.SourceDamage)
+	}
 	if res.Panic == nil && res.NewErr == nil && res.BadCount == "" && res.ReadErr == io.EOF && res.CloseErr == nil &&
 		res.Total == int64(len(in)) && bytes.Equal(res.Out, in) {
 		c.o.Count("canonical_streams_decoded_by_library", 1)
